@@ -341,8 +341,8 @@ def NL(n, lens):
     return [{"N": n, "A": l} for l in lens]
 
 
-add("c19_display_map", "c19::h_display_map::<{N}>({A})", ["C19", "C06"], NL(2, (0, 1, 2)) + NL(3, (3,)) + NL(5, (5,)), NL(3, (0, 1, 2, 3)) + NL(4, (4,)) + NL(5, (5,)) + NL(6, (6,)), unwind="max(N,4)+2", fn="Display for Map", shape="S_fmt", timeout="30m")
-add("c19_display_set", "c19::h_display_set::<{N}>({A})", ["C19", "C06"], NL(2, (0, 1, 2)) + NL(3, (3,)) + NL(5, (5,)), NL(3, (0, 1, 2, 3)) + NL(4, (4,)) + NL(5, (5,)) + NL(6, (6,)), unwind="max(N,4)+2", fn="Display for Set", shape="S_fmt", timeout="30m")
+add("c19_display_map", "c19::h_display_map::<{N}>({A})", ["C19", "C06"], NL(2, (0, 1, 2)) + NL(3, (3,)) + NL(5, (5,)), NL(3, (0, 1, 2, 3)) + NL(4, (4,)) + NL(5, (5,)) + NL(6, (6,)), unwind="max(N,4)+14", fn="Display for Map", shape="S_fmt", timeout="30m")
+add("c19_display_set", "c19::h_display_set::<{N}>({A})", ["C19", "C06"], NL(2, (0, 1, 2)) + NL(3, (3,)) + NL(5, (5,)), NL(3, (0, 1, 2, 3)) + NL(4, (4,)) + NL(5, (5,)) + NL(6, (6,)), unwind="max(N,4)+14", fn="Display for Set", shape="S_fmt", timeout="30m")
 add("c19_debug_map", "c19::h_debug_map::<{N}>(false, {A})", ["C19", "C06"], NL(2, (0, 1, 2)), NL(3, (0, 1, 2, 3)), unwind="max(N,6)+2", fn="Debug for Map ({:?})", shape="S_fmt", timeout="30m")
 add("c19_debug_map_alt", "c19::h_debug_map::<{N}>(true, {A})", ["C19"], NL(1, (0,)), NL(1, (0, 1)), unwind="max(N,6)+2", fn="Debug for Map ({:#?})", shape="S_fmt", timeout="30m")
 add("c19_debug_set", "c19::h_debug_set::<{N}>(false, {A})", ["C19", "C06"], NL(2, (0, 1, 2)), NL(3, (0, 1, 2, 3)), unwind="max(N,6)+2", fn="Debug for Set ({:?})", shape="S_fmt", timeout="30m")
